@@ -17,8 +17,21 @@ PROP = dict(
                        "Comdex.C06.ranged_price_in_range_counterexample",
                        "Comdex.C06.ranged_price_above_max_counterexample",
                        "Comdex.C06.ranged_price_far_below_min_counterexample",
-                       "Comdex.C06.ranged_price_between_curve_endpoints_partial"],
-    harness_tests=["TestC06"],
+                       "Comdex.C06.ranged_price_between_curve_endpoints_partial",
+                       "Comdex.C06.keeper_deposit_moves_amm_result", "Comdex.C06.keeper_deposit_takes_at_most_offered",
+                       "Comdex.C06.keeper_deposit_rate_not_better", "Comdex.C06.keeper_withdraw_moves_amm_result",
+                       "Comdex.C06.keeper_withdraw_at_most_prorata_minus_fee", "Comdex.C06.keeper_last_share_gets_all",
+                       "Comdex.C06.keeper_exec_total", "Comdex.C06.keeper_reserves_per_share_nondecreasing",
+                       "Comdex.C06.keeper_batch_reserves_per_share", "Comdex.C06.keeper_deposit_and_farm",
+                       "Comdex.C06.keeper_unfarm_and_withdraw"],
+    harness_tests=["TestC06", "TestC06Keeper"],
+    monitors=["deposit_no_panic", "deposit_takes_at_most_offered", "deposit_rate_not_better", "deposit_reserves_per_share",
+              "withdraw_no_panic", "withdraw_at_most_prorata", "withdraw_reserves_per_share", "last_share_gets_all",
+              "ranged_price_in_range", "ranged_create_takes_at_most_offered",
+              "keeper_withdraw_prorata", "keeper_last_share", "keeper_deposit_rate", "keeper_reserves_per_share",
+              "keeper_failed_moves_nothing", "keeper_transfers_match_records", "keeper_batch_reserves_consistent",
+              "keeper_fee_in_range"],
+    coverage_files=["x/liquidity/keeper/pool.go"],
     trusted_base=[KERNEL_TB, HARNESS_TB, DEC_TB,
                   "Model/Pool.lean is hand-written from x/liquidity/amm/pool.go:231-294,331-336,477-584,675-682 and "
                   "types/utils.go:211-232 (SafeMath); tied by calling the real amm.Deposit, amm.Withdraw, amm.CreateRangedPool, "
